@@ -85,7 +85,9 @@ func (f *FakeStore) Query(ctx context.Context, prefix string) ([]allocator.KeyVa
 	}
 	return out, nil
 }
-func (f *FakeStore) Watch(prefix string, cb func(key string, value []byte, deleted bool)) { f.watch = cb }
+func (f *FakeStore) Watch(prefix string, cb func(key string, value []byte, deleted bool)) {
+	f.watch = cb
+}
 
 // RemoteApply installs a record written by another node and notifies the watcher.
 func (f *FakeStore) RemoteApply(key string, value []byte) {
